@@ -292,6 +292,14 @@ impl Session {
         let prior_calls = self.history.clone();
         let out = run_op(&self.sign, op, pages);
         self.history.push(format!("{} -> {}", op.name(), out.show()));
+        if self.history.len() > 6 {
+            // a long-lived object: remember how many calls there were and what the last few did
+            let n = self.history.len() - 5;
+            let earlier = self.history[0].strip_prefix("(+").and_then(|r| r.split(' ').next()).and_then(|k| k.parse::<usize>().ok()).unwrap_or(0);
+            let dropped = if earlier > 0 { earlier + n - 1 } else { n };
+            self.history.drain(..n);
+            self.history.insert(0, format!("(+{} earlier calls)", dropped));
+        }
         let mut b = self.bus.borrow_mut();
         let mut divergence = b.divergence.take();
         let mut expected_outcome = None;
